@@ -495,6 +495,25 @@ def hooks_pathspec_reset(trace, viol):
     return rs is not None and isinstance(st, int) and st > rs
 
 
+@predicate("hooks_rebase_reorder_new_file")
+def hooks_rebase_reorder_new_file(trace, viol):
+    """git rebase -i that RE-ORDERS commits of which one creates a file: in git-hooks mode the rewritten commit that
+    creates the file gets no attestation for it"""
+    if viol.get("monitor") not in ("pair.notes", "pair.blame"):
+        return False
+    if (trace.get("variant") or {}).get("world", {}).get("mode") != "hooks":
+        return False
+    rb = _index_of(trace, lambda o: _is_git(o, "rebase", "-i") and
+                   ((o.get("plan") or "").startswith("reverse") or (o.get("plan") or "").startswith("swap")))
+    st = viol.get("step")
+    if rb is None or not isinstance(st, int) or st < rb:
+        return False
+    # a file that does not exist at the start is written inside the range
+    init = set((trace.get("init") or {}).get("files") or {})
+    created = any(o.get("op") == "edit" and any(p not in init for p in (o.get("files") or {})) for o in _ops(trace)[:rb])
+    return created
+
+
 @predicate("hooks_pull_autostash_abort")
 def hooks_pull_autostash_abort(trace, viol):
     """pull --rebase --autostash that stops on a conflict and is aborted: git re-applies the autostash,
